@@ -73,6 +73,17 @@ CHECKS = {
             "Trusted: the one-program side is the real compiler+VM on the joined accepted lines (its agreement with the language "
             "semantics is C02's matter); function values are compared by captured values. Histories of length <= 5.",
             "TLA+ session-machine specification; TLC-generated histories replayed into the implementation; recorded sessions validated by TLC"),
+    "C13": ("equality", "model_checking",
+            "spec/Equality.tla defines structural equality SEq on abstract values and its laws (reflexive, symmetric, transitive, = "
+            "identity of abstract values) are checked by TLC on a small universe; the engine enumerates pairs of construction paths "
+            "(literal, builtin-computed heap rope vs constant, spread, generic function = different tuple ids, import, message, "
+            "separate REPL lines = separately merged programs, after other merges) of the same and of different abstract values and "
+            "records the verdicts of pinned match / repeated binder / literal match, directly and through a union-typed function; "
+            "spec/EqualityTrace.tla judges PathIndependent and VerdictIsStructural. Refs: the mechanism model mints refs per worker and "
+            "TLC checks RefsUnique; the monitor checks that refs minted by different processes under 1-4 workers are pairwise distinct.",
+            "Trusted: the value projection (tuple name + labels + fields, bytes of binaries, function index + captures). Function values "
+            "are compared within one program only.",
+            "TLA+ definition of structural equality; recorded verdicts of the implementation validated by TLC; refs via the runtime engine"),
     "C14": ("runtime", "model_checking",
             "The mechanism model includes the environment's ownership table, the effect request/completion protocol and a backend "
             "registry; TLC checks ClosedAtExit / BackendCallsLegal / OwnerKnown exhaustively on resource scenarios (open, use, explicit "
@@ -109,6 +120,8 @@ ENGINES = [
      "kind_free_text": "TLC exhaustive model checking of spec/Runtime.tla (and spec/Heap.tla) per scenario family + recorded executions "
                        "of the real Environment/Workers (harness `sim`) judged by the TLA+ property monitor spec/RuntimeObs.tla and "
                        "validated against the mechanism model by spec/RuntimeTrace.tla"},
+    {"name": "equality", "path": "engines/equality.py", "serves_properties": ["C13"],
+     "kind_free_text": "spec/Equality.tla + EqualityTrace.tla over recorded verdicts; refs clause through engines/runtime.py"},
     {"name": "vmstack", "path": "engines/vmstack.py", "serves_properties": ["C07", "C16"],
      "kind_free_text": "harness bcdump/vmtrace; spec/VMSem.tla + VMStack.tla (all paths of every function) + VMTrace.tla (real VM traces) + VMPeaks.tla"},
     {"name": "packaging", "path": "engines/packaging.py", "serves_properties": ["C10"],
